@@ -265,13 +265,13 @@ pub fn check(c: &Case, obs: &mut Obs) -> Verdict {
                     // with nothing held neither line has an effect and the return cannot be
                     // absorbed: refusal citing s122 is within the statement
                     let msg = e.to_string();
-                    if msg.contains("S122") && !held.is_pos() {
+                    if cites_s122(&msg) && !held.is_pos() {
                         obs.class("pair_refused_nothing_held");
                         Verdict::Pass
-                    } else if msg.contains("S122") && has_f11_gap(base) {
+                    } else if cites_s122(&msg) && has_f11_gap(base) {
                         // the base ledger already holds an over-large return the tool accepted (F11)
                         f11()
-                    } else if msg.contains("S122") && prepass(base, &tk).1 {
+                    } else if cites_s122(&msg) && prepass(base, &tk).1 {
                         // an earlier return of the base ledger, apportioned per share, left a lot with
                         // negative adjusted cost (root cause of F12); the tool's basis is then negative
                         f12()
@@ -310,7 +310,7 @@ pub fn check(c: &Case, obs: &mut Obs) -> Verdict {
                 Outcome::Ok(r) => r,
                 Outcome::Err(e) => {
                     let msg = e.to_string();
-                    if is_cap && msg.contains("S122") {
+                    if is_cap && cites_s122(&msg) {
                         // refusal is judged by the boundary stratum; here only: never refuse a return
                         // that is no larger than what the pool still carries when nothing but the
                         // pool has been used
@@ -414,6 +414,12 @@ pub fn check(c: &Case, obs: &mut Obs) -> Verdict {
             Verdict::Pass
         }
     }
+}
+
+/// the refusal "cites TCGA92 s122" in any spelling (S122, s122, s.122, section 122)
+fn cites_s122(msg: &str) -> bool {
+    let m = msg.to_lowercase().replace(['.', ' '], "");
+    m.contains("s122") || m.contains("section122")
 }
 
 fn f12() -> Verdict {
@@ -525,7 +531,7 @@ fn boundary(c: &Case, base: &[Tx], r0: &TaxReport, tk: &str, obs: &mut Obs) -> V
         }
         Outcome::Err(e) => {
             let msg = e.to_string();
-            if !matches!(e, CgtError::InvalidTransaction(_)) || !msg.contains("S122") {
+            if !cites_s122(&msg) {
                 return Verdict::fail(format!("capital return refused with an error not citing S122: {msg}"));
             }
             if !exceeds && !undecided && pool_only {
